@@ -26,10 +26,10 @@ CHECKS.update({
                 text="Exhaustive over the write sites of the current tree: every public entry point (cube constructors/calculate/shortcuts, every ffunc/xfunc constructor and get_initial_regions, non-mutating iindex methods, from_array, column_stack, IndxIO) is walked with all callees inlined; every element store, attribute rebind, del, in-place augmented assignment, mutating method and out= is classified by the storage roots of its target. A write that may reach caller-supplied storage, or self/aggregator state outside a constructor, is a violation naming the parameter. get_initial_regions returns fresh arrays; shortcuts build a new aggregator per call.",
                 note="Declined: 'aggregates computed together equal each alone' as numerical equality. Trusted: NumPy/builtin summary table in sa/own.py (fresh/view/mutates rows), protocol type hints in sa/hints.py. Whitelisted by name, one symbol each: ffunc.tracing, ccube.intersection_data_points, xcube._tracing (diagnostics the property excludes), iindex.__init__'s in-place list->array normalisation of the dict it is given.", ref="4 C17"),
     "C16": dict(cat="other", technique="static effect/race analysis: write set of the pool-task closure classified LOCAL / PARTITIONED-by-task-coordinates / DIAGNOSTIC via derivation paths to captured storage; barrier and dispatch-API rules",
-                text="Decides the mechanism that makes pooled evaluation schedule-independent, on code the test-suite never runs: every write of a task (transitively through fill_func/_fill/walk resp. fill/flat_regions/bins, all overriders) is task-local, or reaches the shared result regions only through region[tuple(flattened_slice)] with an index computed from the task argument alone, or is a named diagnostic; the whole-region case occurs only when the product has one element; dispatch is a blocking pool.map on a per-call pool; serial and pooled branches run the same closure over the same iterable; reduce runs after the barrier.",
+                text="Decides the mechanism that makes pooled evaluation schedule-independent, on code the test-suite never runs: every write of a task (transitively through fill_func/_fill/walk resp. fill/flat_regions/bins, all overriders) is task-local, or reaches the shared result regions only through region[tuple(flattened_slice)] with an index computed from the task argument alone, or is a named diagnostic; the whole-region case occurs only when the product has one element; dispatch is a blocking pool.map on a per-call pool; serial and pooled branches run the same closure over the same iterable; reduce runs after the barrier. Also decided: kernels fill only buffers allocated in the call (no module-level workspace, also not through a cdef helper); nothing on the tasks' path lives in threading.local storage set by another thread; no decision of calculate depends on an unsynchronised diagnostic counter. The task may be a closure or a method dispatched through functools.partial, and dispatch / poll may sit in private helper methods of the cube.",
                 note="Declined: bit-for-bit equality of outputs as a run-time fact. Assumes distinct Cartesian-product elements differ in a coordinate and that integer indexing on leading axes + reshape yield views (NumPy facts). Trusted: multiprocessing.pool API semantics (map/starmap block, imap/map_async/apply_async do not).", ref="4 C16"),
     "C20": dict(cat="other", technique="event-order and dominance rules over the symbolic walk of calculate: callback placement, try/with transparency table, dispatch API, surviving-state mod-ref",
-                text="For both cubes, serial and pooled activation: the interrupt callback is consulted exactly once per sub-cube task, before any store or effectful call, outside any loop of the task; no try/except or suppressing context manager between the public method and the callback can complete without re-raising; pooled dispatch re-raises and the pool is closed by a with; calculate leaves nothing on the cube or the aggregators besides named diagnostics that are re-initialised.",
+                text="For both cubes, serial and pooled activation: the interrupt callback is consulted exactly once per sub-cube task, before any store or effectful call, outside any loop of the task; no try/except or suppressing context manager between the public method and the callback can complete without re-raising; pooled dispatch re-raises and the pool is closed by a with; calculate leaves nothing on the cube or the aggregators besides named diagnostics that are re-initialised; the callback is a plain attribute (not a property over thread-local storage) and its return value decides nothing.",
                 note="Declined: 'a following calculate equals a fresh evaluation' numerically. Trusted: pool.map re-raises a worker exception; closing/errstate do not suppress.", ref="4 C20"),
 })
 
